@@ -10,8 +10,8 @@ SOFT = ["badsig", "unknownca", "selfsigned", "expired", "notyet", "int_expired",
 HARD = ["nocert"]      # (unknown critical extensions / unsupported algorithms are refused by the parser: C03/C09)
 
 def pki_lines(fam):
-    """fam: 'r' (RSA keys) or 'e' (P-256 keys).  Returns certgen lines."""
-    kt = "rsa" if fam == "r" else "ec"
+    """fam: 'r' (RSA keys), 'e' (P-256 keys) or 'd' (Ed25519 keys).  Returns certgen lines."""
+    kt = {"r": "rsa", "e": "ec", "d": "ed"}[fam]
     P = fam
     L = []
     for k in ["R", "X", "I", "L", "E", "W"]:
@@ -74,7 +74,7 @@ def cred_files(fam, cls):
 
 def materialise(pkidir, certgen):
     os.makedirs(pkidir, exist_ok=True)
-    lines = pki_lines("r") + pki_lines("e")
+    lines = pki_lines("r") + pki_lines("e") + pki_lines("d")
     p = subprocess.run([certgen, pkidir], input="\n".join(lines) + "\n", capture_output=True, text=True)
     if p.returncode != 0:
         raise SystemExit("INFRA: certgen failed: " + p.stderr[-2000:])
@@ -96,6 +96,8 @@ MODES = [
     ("T11", "ecdhe", "r", "0xc013", "SERVER_KEY_EXCHANGE"),
     ("T13", "t13", "r", "0x1301", "CERTIFICATE_VERIFY"),
     ("T13", "t13", "e", "0x1303", "CERTIFICATE_VERIFY"),
+    ("T13", "t13", "d", "0x1301", "CERTIFICATE_VERIFY"),      # Ed25519 identities and chains (TLS 1.3 only: the library has no
+                                                              # Ed25519 authentication below TLS 1.3 - an honest handshake does not complete)
     ("D12", "ecdhe", "r", "0xc02f", "SERVER_KEY_EXCHANGE"),
     ("D12", "rsa", "r", "0x3c", "none"),
     ("D10", "ecdhe", "e", "0xc009", "SERVER_KEY_EXCHANGE"),
